@@ -14,6 +14,7 @@ import json
 import os
 
 import ir
+import inline
 from ir import walk, unwrap, show
 from absint import AbsInt
 from accesses import Analyzer, zero_trip_roots
@@ -239,6 +240,7 @@ def rule_chebyshev_bounds(ck, units):
     for u in units.values():
         for f in u.funcs:
             if f.cls == 'amgcl::relaxation::chebyshev' and f.j.get('ctor') and 'cheb' not in done:
+                f = inline.expand(f, inline.same_class_helper())      # helpers of the constructor are analysed in place
                 calls = [c for c in f.calls('amgcl::backend::spectral_radius')]
                 if not calls:
                     continue
@@ -253,6 +255,8 @@ def rule_chebyshev_bounds(ck, units):
                     for a in f.ancestors(c):
                         if a['k'] == 'if' and show(a['c']) in ('prm.scale', 'this->prm.scale'):
                             pol = a.get('t') is not None and any(x is cur for x in walk(a['t']))
+                        elif a['k'] == 'cond' and show(a['c']) in ('prm.scale', 'this->prm.scale'):
+                            pol = any(x is cur for x in walk(a['x']))
                         cur = a
                     if pol is None:
                         dets.append('spectral_radius<%s> at %s is called irrespective of prm.scale' % ('true' if scaled else 'false', f.where(c)))
